@@ -231,7 +231,7 @@ class MLETomographyAlgorithm:
         Calculates the expected measurement outcomes from the provided choi
         matrix.
         """
-        return (self._a_matrix @ _vec(choi.T)).clip(1e-8)
+        return (self._a_matrix @ _vec(choi)).clip(1e-8)
 
     def _cost(self, choi: np.ndarray, n_vec: np.ndarray) -> np.ndarray:
         """
